@@ -99,6 +99,12 @@ func init() {
 				edt.Check(bi, &edt.Config{P: p, Mod: modFor(p)}, batchInvertSpec())
 				checkExpAll(run, p, exp)
 				esib.CheckUniform(run, p, "SIB-uniform")
+				if id == stageA[0] {
+					// in-place use: fe.Mul(fe, a), ConditionalSwap(a, a), Swap of one word with itself — the limb
+					// helpers and the constant-time select/swap primitives give the same result when operands alias
+					al := run.Rule("ALIAS", "field operations and the constant-time select/swap helpers compute the same result when two same-typed pointer parameters denote one object", 6)
+					run.Sample(checkAliasing(al, p, []string{"internal/subtle", "internal/field"}))
+				}
 				lr := elin.CheckField(run, p, "LIN")
 				if id == stageA[0] {
 					run.Sample(map[string]any{"config": id, "LIN functions": lr.Functions, "LIN obligations": lr.Obligations})
